@@ -6,7 +6,7 @@ H = 'harness/e2/c07_par.c'
 STUBS = ['libomp runtime (__kmpc_fork_call, dispatch_init/next, critical, ...): ONE worker executes each parallel region; dynamic-schedule iterations are run in every order (fork)',
          'shared FILE*: at every fread outside a critical section/flockfile another worker may have moved the stream to any offset the stream was ever at (one interference per path)',
          'stdio / mmap: in-memory model file system', 'cpuid: no SIMD features']
-WSTUB = ['two modelled OpenMP workers: dynamic hand-out of iterations; preemption points = iteration boundaries and accesses to bytes on which two iterations conflict (recording pass); at most one preemption per parallel region']
+WSTUB = ['two modelled OpenMP workers: dynamic hand-out of iterations; preemption points = iteration boundaries, lock acquisitions (omp critical) and accesses to bytes on which two iterations conflict (recording pass); at most one preemption per parallel region']
 MODES = {0: 'buffer', 1: 'stdio', 2: 'mmap'}
 CODECS = {'unc': 'CARQUET_COMPRESSION_UNCOMPRESSED', 'snappy': 'CARQUET_COMPRESSION_SNAPPY', 'lz4': 'CARQUET_COMPRESSION_LZ4'}
 OUTSIDE = ('outside: more than 3 projected columns in the iteration-order model (loops of 2..3 iterations are permuted), more than two workers / more than one preemption per parallel region in the worker model, '
@@ -38,8 +38,8 @@ def interleave(spec, rows, nrg, page, flavour, codec, om, bs, proj=0, threads=0,
 
 def workers(spec, rows, nrg, page, flavour, codec, om, bs, proj=0, threads=2, timeout=1100):
     return E2('workers/%s/%s/%s/t%d' % (MODES[om], codec, shape_nm(spec, rows, nrg, page, flavour, bs, proj), threads), H,
-              defines=defs(spec, rows, nrg, page, flavour, codec, om, bs, proj, threads, 2), all_lib=True, openmp=True, timeout=timeout, fork_max=16, stubs=STUBS + WSTUB, expect_paths_min=2,
-              bounds='%s, num_threads %d, 2 modelled workers, <= 1 preemption per parallel region at every iteration boundary and every conflicting access; every call compared with the num_threads=1 run; %s' % (
+              defines=defs(spec, rows, nrg, page, flavour, codec, om, bs, proj, threads, 2), all_lib=True, openmp=True, timeout=timeout, fork_max=16, stubs=STUBS + WSTUB, expect_paths_min=2, max_paths=300000,
+              bounds='%s, num_threads %d, 2 modelled workers, <= 1 preemption per parallel region at every iteration boundary, every lock acquisition and every conflicting access; every call compared with the num_threads=1 run; %s' % (
                   shape_txt(spec, rows, nrg, page, flavour, codec, om, bs, proj), threads, OUTSIDE))
 
 
@@ -84,24 +84,27 @@ def obligations(tier):
     o = legacy()
     CN = ('unc', 'snappy', 'lz4')
     # (spec, rows, row groups, rows per page, flavour, batch size, projection)
+    # iteration-order model: (projected columns)!^2 orders per call with a batch -> 2 columns: up to 5 calls, 3 columns: at most 2 calls
     TWO = [('is', 8, 2, 2, 0, 3, 0), ('Sb', 9, 1, 3, 1, 4, 0), ('xD', 10, 2, 2, 0, 5, 2), ('fl', 7, 1, 2, 1, 2, 1)]
-    THREE = [('ilS', 6, 1, 2, 0, 4, 0), ('BsD', 8, 2, 2, 0, 4, 0), ('sIx', 6, 2, 3, 1, 6, 0), ('IlsB', 8, 1, 2, 0, 4, 1)]      # 3 projected columns: 36 orders per call -> at most 3 calls with a batch
+    THREE = [('ilS', 6, 1, 2, 0, 4, 0), ('BsD', 8, 2, 2, 0, 4, 0), ('sIx', 6, 2, 3, 1, 6, 0), ('IlsB', 8, 1, 2, 0, 4, 1)]
+    # worker model: every lock acquisition, iteration boundary and conflicting access of every parallel region is a preemption choice
+    # (choices multiply per region, and the single-threaded reference run is repeated on every path): 1..2 calls with a batch
+    W2 = [('is', 6, 2, 3, 0, 3, 0), ('Sb', 6, 1, 2, 1, 6, 0), ('xD', 8, 2, 2, 0, 4, 2), ('fl', 5, 1, 2, 1, 5, 1)]
+    W34 = [('ilS', 4, 1, 2, 0, 4, 0), ('BsD', 6, 2, 3, 0, 3, 0), ('IlsB', 4, 1, 2, 0, 4, 0), ('bXdS', 3, 1, 3, 1, 4, 0)]
     for om in (0, 1, 2):
         for ci, cn in enumerate(CN):
             for si, (spec, rows, nrg, page, fl, bs, pj) in enumerate(TWO):
                 if q and (si + om + ci) % 3: continue
                 o.append(interleave(spec, rows, nrg, page, fl, cn, om, bs, pj))
-                o.append(workers(spec, rows, nrg, page, fl, cn, om, max(bs, 4), pj, threads=2 + (si + om) % 3))     # <= 3 calls with a batch: preemption choices multiply per parallel region
                 o.append(handles(spec, rows, nrg, page, fl, cn, om, bs, pj))
             for si, (spec, rows, nrg, page, fl, bs, pj) in enumerate(THREE):
                 if q and (si + om + ci) % 4: continue
                 o.append(interleave(spec, rows, nrg, page, fl, cn, om, bs, pj, threads=2 + (si + ci) % 3, timeout=1800))
-                o.append(workers(spec, rows, nrg, page, fl, cn, om, bs, pj, threads=2 + (si + om + ci) % 3, timeout=1800))
                 if not q: o.append(handles(spec, rows, nrg, page, fl, cn, om, bs, pj))
-    if not q:
-        # four projected columns: beyond the permutation model (sequential order only) but inside the two-worker model
-        for om in (0, 1, 2):
-            for cn in CN:
-                o.append(workers('IlsB', 8, 2, 2, 0, cn, om, 4, 0, threads=4, timeout=1800))
-                o.append(workers('bXdS', 6, 1, 2, 1, cn, om, 4, 0, threads=3, timeout=1800))
+            for si, (spec, rows, nrg, page, fl, bs, pj) in enumerate(W2):
+                if q and (si + om + ci) % 3: continue
+                o.append(workers(spec, rows, nrg, page, fl, cn, om, bs, pj, threads=2 + (si + om) % 3, timeout=1800))
+            for si, (spec, rows, nrg, page, fl, bs, pj) in enumerate(W34):
+                if q and (si + om + ci) % 4: continue
+                o.append(workers(spec, rows, nrg, page, fl, cn, om, bs, pj, threads=2 + (si + om + ci) % 3, timeout=1800))
     return o + lazy_init(q)
